@@ -40,8 +40,11 @@ def _stub_unary(f):
 class ProfileRun:
     """one abstract run of vertical_profiles"""
 
-    def __init__(self, P, closure, forcing, mol_sign="+", opaque_similarity=True, z0_value=None, tke=True):
-        self.closure, self.forcing = closure, forcing
+    def __init__(self, P, closure, forcing, mol_sign="+", opaque_similarity=True, z0_value=None, tke=True, grid=""):
+        """grid: "" (defaults), "H" (domain_height given), "S" (stretch given), "HS" (both)"""
+        self.closure, self.forcing, self.grid = closure, forcing, grid
+        self.zmx_given = alg.sym("domain_height", pos=True) if "H" in grid else None
+        self.h_given = alg.sym("stretch", pos=True) if "S" in grid else None
         self.n = alg.sym("n", pos=True, integer=True)
         self.zm = alg.sym("zm", pos=True)
         self.um, self.vm = alg.sym("um"), alg.sym("vm")
@@ -60,6 +63,10 @@ class ProfileRun:
             kw["ustar"] = self.ustar
             if tke:
                 kw["tke"] = self.tke
+        if self.zmx_given is not None:
+            kw["domain_height"] = self.zmx_given
+        if self.h_given is not None:
+            kw["stretch"] = self.h_given
         stubs = {}
         if opaque_similarity:
             stubs = {"bldfm.pbl_model.psi": _stub_unary(PSI), "bldfm.pbl_model.phi": _stub_unary(PHI)}
@@ -104,10 +111,10 @@ CL, CM_, CH = Q("0.845"), Q("0.0856"), Q("0.204")
 
 
 def spec_grid(R, z0):
-    h = 2 * R.zm
+    h = R.h_given if getattr(R, "h_given", None) is not None else 2 * R.zm
     bb = R.zm / (alg.exp(-z0 / h) - alg.exp(-R.zm / h))
     aa = bb * alg.exp(-z0 / h)
-    zmx = 2 * R.zm
+    zmx = R.zmx_given if getattr(R, "zmx_given", None) is not None else 2 * R.zm
     zetamx = aa - bb * alg.exp(-zmx / h)
     return h, aa, bb, zetamx
 
@@ -115,15 +122,19 @@ def spec_grid(R, z0):
 def profile_obligations(P):
     obs = []
     runs = {}
-    for closure in ("MOST", "MOSTM", "CONSTANT", "OAAHOC"):
-        for forcing in (("ustar", "z0") if closure != "OAAHOC" else ("ustar",)):
-            R = ProfileRun(P, closure, forcing)
-            runs[(closure, forcing)] = R
-            site = "src/bldfm/pbl_model.py::vertical_profiles (closure %s, %s given)" % (closure, forcing)
+    for closure, forcing, grid in [(c, f, g) for c in ("MOST", "MOSTM", "CONSTANT", "OAAHOC") for f in (("ustar", "z0") if c != "OAAHOC" else ("ustar",)) for g in ("", "H", "S", "HS")]:
+        if True:
+            R = ProfileRun(P, closure, forcing, grid=grid)
+            if grid == "":
+                runs[(closure, forcing)] = R
+            site = "src/bldfm/pbl_model.py::vertical_profiles (closure %s, %s given%s)" % (closure, forcing, {"": "", "H": ", domain_height given", "S": ", stretch given", "HS": ", domain_height and stretch given"}[grid])
             if not R.ok:
                 obs.append(req_ob("R-GRID", site, "one straight path returning (z, (u, v, Kx, Ky, Kz))", False if R.res else None,
                                   detail=str([(r.kind, r.raise_desc, r.path) for r in R.res])[:300]))
                 continue
+            mut = [e for e in R.rets[0].events if e[0] == "param-mutation"]
+            obs.append(req_ob("R-ARGS", site, "the caller's wind vector and other arguments are not modified (an in-place update would change the input of the next call, e.g. of the z0 <-> ustar round trip)",
+                              not mut, detail="; ".join("%s %s" % (e[1], e[2]) for e in mut[:2]) or None, key={"closure": closure}))
             # effective z0 / ustar by S-MOST
             if closure == "OAAHOC":
                 z0e = R.zm * alg.exp(-CM_ * CL * R.absum * alg.sqrt(R.tke) / (R.ustar * R.ustar))
@@ -145,7 +156,7 @@ def profile_obligations(P):
             gen = [a for a in [R.z] if isinstance(a, Arr)]
             nnodes = R.z.shape[0] if isinstance(R.z, Arr) and R.z.shape else None
             want_nodes = alg.fn("ceil", (zetamx + R.zm / R.n) / (R.zm / R.n), integer=True, pos=True)
-            obs.append(eq_ob("R-GRID", site, "the mapped coordinate runs in steps zm/n up to (at least) the domain height 2*zm", nnodes, want_nodes, "arange(0, zeta(zmx)+dzeta, dzeta)", key={"closure": closure}))
+            obs.append(eq_ob("R-GRID", site, "the mapped coordinate runs in steps zm/n up to (at least) the domain height (2*zm unless given)", nnodes, want_nodes, "arange(0, zeta(zmx)+dzeta, dzeta)", key={"closure": closure}))
             # wind at zm and direction
             obs.append(eq_ob("R-WIND@zm", site, "u at the measurement height is the supplied u", R.at_node(R.u, R.n) if closure != "CONSTANT" else R.val(R.u), R.um, key={"closure": closure}))
             obs.append(eq_ob("R-WIND@zm", site, "v at the measurement height is the supplied v", R.at_node(R.v, R.n) if closure != "CONSTANT" else R.val(R.v), R.vm, key={"closure": closure}))
